@@ -30,6 +30,9 @@ def run(tier, seed):
         run_hex(rep, f"HT x one-byte values around 0x80 prune={prune} (55-nibble leaf paths: node sizes 31 / 32)", universe="HT",
                 values=("B7f", "B80", "Bff"), prune=prune, props=P)
     if tier == "thorough":
+        for prune in (False, True):
+            run_hex(rep, f"H3xSL chains of 4 operations on ONE live object prune={prune}", universe="H3", values=("S", "L"), prune=prune, props=P, chain=4)
+            run_hex(rep, f"HS4xSL chains of 3 operations on ONE live object prune={prune}", universe="HS4", values=("S", "L"), prune=prune, props=P, chain=3)
         sweep = ("S", "T26", "T27", "T28", "T29", "T30", "L", "X")
         for prune in (False, True):
             run_hex(rep, f"H9xSL direct prune={prune}", universe="H9", values=("S", "L"), prune=prune, props=P)
